@@ -4965,7 +4965,11 @@ func (t *Terminal) Loop() error {
 						t.printLabel(t.pborder, t.previewLabel, t.previewLabelOpts, t.previewLabelLen, t.activePreviewOpts.Border(), true)
 					case reqReinit:
 						t.tui.Resume(t.fullscreen, true)
+						wasHidden := t.pwindow == nil
 						t.fullRedraw()
+						if wasHidden && t.hasPreviewWindow() {
+							refreshPreview(t.previewOpts.command)
+						}
 					case reqResize, reqFullRedraw:
 						if req == reqResize {
 							t.termSize = t.tui.Size()
@@ -5338,10 +5342,14 @@ func (t *Terminal) Loop() error {
 					t.deselectItem(item)
 					changed = true
 				}
-			case actExecute, actExecuteSilent:
-				t.executeCommand(a.a, false, a.t == actExecuteSilent, false, false, "")
-			case actExecuteMulti:
-				t.executeCommand(a.a, true, false, false, false, "")
+			case actExecute, actExecuteSilent, actExecuteMulti:
+				hadPreviewWindow := t.hasPreviewWindow()
+				t.executeCommand(a.a, a.t == actExecuteMulti, a.t == actExecuteSilent, false, false, "")
+				if !hadPreviewWindow && t.hasPreviewWindow() {
+					// The terminal was resized while the command was running and the redraw
+					// at the end of it has brought the preview window back
+					refreshPreview(t.previewOpts.command)
+				}
 			case actInvalid:
 				t.mutex.Unlock()
 				return false
